@@ -22,10 +22,12 @@ ASSUMPTIONS = ["PySCF AO integrals, SCF energy and nuclear repulsion", "numpy/sc
 SHARDS = {"quick": 4, "thorough": 16}
 
 TOL_E = 1e-6      # energies through SCF-based pipelines
-TOL_X = 1e-7      # same orbitals on both sides: only linear-algebra noise
+TOL_X = 1e-6      # same orbitals on both sides; openfermion drops/rounds individual coefficients at its 1e-8 tolerance, which
+                  # on near-symmetric molecules (many ~1e-8 integrals) adds up to a few 1e-8 in matrix elements
+TOL_LEAK = 1e-6
 CONFIGS = [[m, u] for m in M.MAPPINGS for u in (False, True)]
 
-PHANTOM_SIG = "sector-min:uhf-unequal-active-anion"
+PHANTOM_SIG = "sector-min:uhf-unequal-active-padding"
 
 
 def selftest():
@@ -54,11 +56,12 @@ def per_spin_frozen(case):
     return list(fr), list(fr)
 
 
-def phantom_anion(c):
-    """Exclusion predicate for PHANTOM_SIG (used only when that signature is a listed open finding)."""
+def padded_register(c):
+    """Exclusion predicate for PHANTOM_SIG (used only when that signature is a listed open finding): UHF with a
+    different number of active alpha and beta orbitals (the register is then padded with integral-free spin-orbitals)."""
     m = c["mol"]
     fa, fb = per_spin_frozen(m)
-    return bool(m["uhf"]) and m["q"] < 0 and len(set(fa)) != len(set(fb))
+    return bool(m["uhf"]) and len(set(fa)) != len(set(fb))
 
 
 def mol_labels(case, p, mol):
@@ -82,6 +85,8 @@ def mol_labels(case, p, mol):
             out.add("frozen-non-contiguous")
     if case["uhf"] and fa != fb:
         out.add("uhf-unequal-frozen-lists")
+    if case["uhf"] and [i for i in fa if i in occ_a] and [i for i in fb if i in occ_b]:
+        out.add("uhf-frozen-occupied-in-both-spins")
     if len(p["act_a"]) != len(p["act_b"]):
         out.add("phantom-register")
         short = p["act_a"] if len(p["act_a"]) < len(p["act_b"]) else p["act_b"]
@@ -117,7 +122,7 @@ def sector_minimum(mol, p, mapping, utd, fermion_op=None, what=""):
         raise Fail(f"{what}{mapping}/{utd}: the (N,Sz)=({p['na'] + p['nb']},{(p['na'] - p['nb']) / 2}) sector is empty",
                    sig=f"sector-empty:{mapping}")
     w, v, leak = M.sector_spectrum(H.terms, nq, idx)
-    if leak > 1e-8:
+    if leak > TOL_LEAK:
         raise Fail(f"{what}{mapping}/{utd}: qubit Hamiltonian couples the (N,Sz) sector to its complement or is not "
                    f"Hermitian there (|element|={leak:.2e})", sig=f"sector-leak:{mapping}")
     return H, nq, idx, w
@@ -185,8 +190,7 @@ def check_molecule(ctx, case):
             labels.add("backend-expectation")
         if abs(w[0] - e_ci) > TOL_X:
             phantom = mcase["uhf"] and len(p["act_a"]) != len(p["act_b"]) and w[0] < e_ci
-            sig = PHANTOM_SIG if (phantom and mcase["q"] < 0) else \
-                f"sector-min:{'uhf' if mcase['uhf'] else 'rohf' if mcase['spin'] else 'rhf'}" + ("-phantom" if phantom else "")
+            sig = PHANTOM_SIG if phantom else f"sector-min:{'uhf' if mcase['uhf'] else 'rohf' if mcase['spin'] else 'rhf'}"
             raise Fail(f"{mapping}/up_then_down={utd}: lowest eigenvalue of the qubit Hamiltonian in the (N={ne},Sz={sp / 2}) sector "
                        f"is {w[0]}, CI with the same frozen orbitals gives {e_ci} (sector dims {len(idx)} vs {dim})",
                        sig=sig, mapping=mapping, up_then_down=utd)
@@ -222,7 +226,7 @@ def check_molecule(ctx, case):
         if abs(w[0] - e_ci) > TOL_X:
             raise Fail(f"after an active-space rotation {mapping}/up_then_down={utd}: sector minimum {w[0]}, before {e_ci}",
                        sig=f"rotation:{'uhf' if mcase['uhf'] else 'restricted'}", mapping=mapping)
-    nontrivial = min(len(p["act_a"]), len(p["act_b"])) >= 2 and dim >= 2
+    nontrivial = max(len(p["act_a"]), len(p["act_b"])) >= 2 and dim >= 2
     return nontrivial, labels
 
 
@@ -239,11 +243,11 @@ def _bounds(ctx):
     return dict(max_qubits=10, max_kept=6) if ctx.tier == "quick" else dict(max_qubits=10, max_kept=6)
 
 
-@part("energies", quick=72, thorough=2400)
+@part("energies", quick=60, thorough=2400)
 def energies(ctx):
     """All reference types, all frozen-orbital forms, all molecule families."""
     ctx.search("energies", cases(M.molecules(**_bounds(ctx))), lambda c: check_molecule(ctx, c),
-               exclusions={PHANTOM_SIG: phantom_anion}, shrink_calls=60 if ctx.tier == "quick" else 300)
+               exclusions={PHANTOM_SIG: padded_register}, shrink_calls=60 if ctx.tier == "quick" else 300)
 
 
 @st.composite
@@ -255,16 +259,20 @@ def uhf_perspin_molecules(draw):
     n_mos = len(m["atoms"])
     fa = draw(st.lists(st.integers(0, n_mos - 1), unique=True, max_size=n_mos - 1).map(sorted))
     fb = draw(st.lists(st.integers(0, n_mos - 1), unique=True, max_size=n_mos - 1).map(sorted))
+    if draw(st.booleans()):          # nested lists: the same orbitals frozen for both spins plus extra ones for one spin
+        fb = sorted(set(fa) | set(fb))
+        if draw(st.booleans()):
+            fa, fb = fb, fa
     from hypothesis import assume
     assume(len(fa) != len(fb) and M.contract_ok(n_mos, n_alpha, n_beta, True, [fa, fb]))
     m["frozen"] = [fa, fb]
     return m
 
 
-@part("uhf_perspin", quick=32, thorough=800)
+@part("uhf_perspin", quick=28, thorough=800)
 def uhf_perspin(ctx):
     ctx.search("uhf_perspin", cases(uhf_perspin_molecules()), lambda c: check_molecule(ctx, c),
-               exclusions={PHANTOM_SIG: phantom_anion}, shrink_calls=60 if ctx.tier == "quick" else 300)
+               exclusions={PHANTOM_SIG: padded_register}, shrink_calls=60 if ctx.tier == "quick" else 300)
 
 
 @part("open_shell_frozen", quick=24, thorough=800)
@@ -275,4 +283,4 @@ def open_shell_frozen(ctx):
                shrink_calls=60 if ctx.tier == "quick" else 300)
     ctx.search("symmetric", cases(M.molecules(families=list(M.SYMMETRIC_FAMILIES) + ["H4-ring", "BeH2"], invalid=False,
                                               exact_symmetry=True, **_bounds(ctx))), lambda c: check_molecule(ctx, c), frac=0.4,
-               exclusions={PHANTOM_SIG: phantom_anion}, shrink_calls=60 if ctx.tier == "quick" else 300)
+               exclusions={PHANTOM_SIG: padded_register}, shrink_calls=60 if ctx.tier == "quick" else 300)
